@@ -272,27 +272,32 @@ func genOp(t *rapid.T, kinds []string, hp *HistoryParams, depth int) Op {
 	return op
 }
 
+// genConvoy: the first task takes a few steps (and may then hold a lock), the second takes a few, the third and the fourth take
+// a few (until they finish or block), the second continues until it blocks, the first finishes: the waiters queue on the lock in
+// a chosen order.
+func genConvoy(t *rapid.T) []int {
+	var out []int
+	for i, k := 0, rapid.IntRange(1, 6).Draw(t, "convoyA"); i < k; i++ {
+		out = append(out, 0)
+	}
+	for i, k := 0, rapid.IntRange(1, 8).Draw(t, "convoyB"); i < k; i++ {
+		out = append(out, 1)
+	}
+	for i, k := 0, rapid.IntRange(1, 6).Draw(t, "convoyC"); i < k; i++ {
+		out = append(out, 2) // third task; once it is gone index 2 is the fourth
+	}
+	for i := 0; i < 40; i++ {
+		out = append(out, 1)
+	}
+	return out
+}
+
 // GenSchedule draws scheduler decisions: either uniformly mixed or bursty (one task runs several steps in a row),
 // because many races need "A starts, B runs to completion, A continues".
 func GenSchedule(t *rapid.T) []int {
 	shape := rapid.IntRange(0, 4).Draw(t, "schedShape")
 	if shape == 4 {
-		// convoy: the first task takes a few steps (and may then hold a lock), the second takes a few, the third and the fourth run
-		// until they finish or block, the second continues until it blocks, the first finishes: the waiters queue in a chosen order
-		var out []int
-		for i, k := 0, rapid.IntRange(1, 10).Draw(t, "convoyA"); i < k; i++ {
-			out = append(out, 0)
-		}
-		for i, k := 0, rapid.IntRange(1, 8).Draw(t, "convoyB"); i < k; i++ {
-			out = append(out, 1)
-		}
-		for i := 0; i < 30; i++ {
-			out = append(out, 2) // third task; once it is gone index 2 is the fourth
-		}
-		for i := 0; i < 40; i++ {
-			out = append(out, 1)
-		}
-		return out
+		return genConvoy(t)
 	}
 	if shape == 3 {
 		// nested: the first task takes a few steps, the others then run to completion one after the other, the first continues
@@ -401,9 +406,10 @@ func GenHistory(t *rapid.T, hp *HistoryParams) Case {
 		}
 		sched := func() []int { return GenSchedule(t) }
 		switch rapid.IntRange(0, maxKind).Draw(t, "phraseKind") {
-		case 14, 15: // the old incarnation's unbind holds the pod lock while the replacement's bind and an API release queue behind it
-			c.Ops = append(c.Ops, ab("recreate"), Op{K: "deliver"}, Op{K: "deliver"}, ab("filter"),
-				Op{K: "episode", Sub: []Op{ab("unbind"), ab("apirelease"), {K: "synclister", A: 2}, ab("bind")}, Sched: sched()})
+		case 14, 15: // the old incarnation's unbind holds the pod lock while the replacement's bind and an API release queue behind it;
+			// the pod cache learns about the replacement in between (one event delivered: the cache has seen the deletion only)
+			c.Ops = append(c.Ops, ab("recreate"), Op{K: "deliver"}, ab("filter"),
+				Op{K: "episode", Sub: []Op{ab("unbind"), ab("apirelease"), {K: "synclister", A: 0}, ab("bind")}, Sched: genConvoy(t)})
 		case 13: // old incarnation's events race with the replacement's scheduling
 			c.Ops = append(c.Ops, ab("recreate"), Op{K: "deliver"}, Op{K: "deliver"},
 				Op{K: "episode", Sub: []Op{ab("unbind"), ab("sched")}, Sched: sched()})
